@@ -17,7 +17,9 @@ var c19Lexemes = []string{"script", "foo", "émotion", "x1", "42", "0x1F", "-5",
 // c19Extra: numbers and identifiers with decimal digits outside ASCII (one
 // token each; several bytes per character). Single-lexeme layout jobs and
 // the position sub-check.
-var c19Extra = []string{"\u0663\u0664", "-\u0663", "1\uff12\uff13", "0\u0663", "x\uff12", "\u00e9\u0663z"}
+var c19Extra = []string{"\u0663\u0664", "-\u0663", "1\uff12\uff13", "0\u0663", "x\uff12", "\u00e9\u0663z",
+	// characters outside the BMP (4 bytes, one character): in an identifier, a string, a raw string
+	"\U0001d400b", "\"\U0001f600 a\"", "`\U0001f600`"}
 
 var c19Reduced = []string{"foo", "42", `"x"`, "(", "==", "`r`", "-", "émotion"}
 
